@@ -522,7 +522,7 @@ type caseRange struct {
 	delta  int32
 }
 
-const caseLimit = 0x250
+const caseLimit = 0x100
 
 var lowerRanges, upperRanges []caseRange
 
